@@ -138,8 +138,8 @@ func runMode(c ModeCase) kit.Result {
 
 var modeSpec = kit.Spec[ModeCase]{
 	Prop: "C18", Name: "modegrid",
-	Rule: "exhaustive grid: 4096 permission values x extended bits {0,1,0xFFFFF} x node type {File,Raw,Directory,Symlink,HAMTShard} x 4 setter variants; non-trivial = a setuid/setgid/sticky bit is set",
-	Run:  runMode,
+	Rule:   "exhaustive grid: 4096 permission values x extended bits {0,1,0xFFFFF} x node type {File,Raw,Directory,Symlink,HAMTShard} x 4 setter variants; non-trivial = a setuid/setgid/sticky bit is set",
+	Run:    runMode,
 	Sample: func(c ModeCase) any { return c },
 }
 
@@ -194,7 +194,7 @@ func genTime(t *rapid.T) TimeCase {
 		c.Sec = rapid.SampledFrom([]int64{0, 1, -1, year1, year1 - 1, year1 + 1, 253402300799, 253402300800,
 			1<<31 - 1, 1 << 31, 1 << 32, -(1 << 31), -(1 << 40), 1 << 55, -(1 << 55), 127, 128, 16383, 16384}).Draw(t, "sec")
 	case 1:
-		c.Sec = rapid.Int64Range(-(1 << 55), -1).Draw(t, "sec")
+		c.Sec = rapid.Int64Range(-(1<<55), -1).Draw(t, "sec")
 	case 2:
 		c.Sec = rapid.Int64Range(0, 1<<55).Draw(t, "sec")
 	case 3:
@@ -324,7 +324,7 @@ func runTime(c TimeCase) kit.Result {
 
 var timeSpec = kit.Spec[TimeCase]{
 	Prop: "C18", Name: "mtime",
-	Rule: "mtime drawn from second classes (0, +-1, year 1, year 9999, 2^31, 2^32, +-2^55, random) x nanosecond classes (0, 1, 999999999, random) x time zone x node type, set through FSNode.SetModTime (optionally after another value / then cleared) or through the *PBDataWithStat producers; non-trivial = set with nanoseconds != 0",
+	Rule:  "mtime drawn from second classes (0, +-1, year 1, year 9999, 2^31, 2^32, +-2^55, random) x nanosecond classes (0, 1, 999999999, random) x time zone x node type, set through FSNode.SetModTime (optionally after another value / then cleared) or through the *PBDataWithStat producers; non-trivial = set with nanoseconds != 0",
 	Quick: 40000, Thorough: 200000,
 	Gen: genTime, Run: runTime,
 }
@@ -453,7 +453,7 @@ func runSize(c SizeCase) kit.Result {
 
 var sizeSpec = kit.Spec[SizeCase]{
 	Prop: "C18", Name: "sizes",
-	Rule: "file (inline data + 0..8 child block sizes, some removed again, data optionally replaced), raw and symlink nodes with generated content; FileSize() before/after serialization and DataSize() on the FSNode encoding and on the FilePBData/WrapData/SymlinkData encodings must equal the content length; non-trivial = content length > 0",
+	Rule:  "file (inline data + 0..8 child block sizes, some removed again, data optionally replaced), raw and symlink nodes with generated content; FileSize() before/after serialization and DataSize() on the FSNode encoding and on the FilePBData/WrapData/SymlinkData encodings must equal the content length; non-trivial = content length > 0",
 	Quick: 15000, Thorough: 60000,
 	Gen: genSize, Run: runSize,
 	Sample: func(c SizeCase) any {
